@@ -1,24 +1,41 @@
 // C16 harness: multi-source fetch with a gating, fault-injecting Fetcher.
-// Every behaviour of Fetch.tla (failure subset x completion order) is forced on
+// Every behaviour of Fetch.tla (source classes x completion order) is forced on
 // the real driver: each fetch blocks until the controller releases it in the
 // prescribed order, with the prescribed outcome (plug-in error, invalid
 // profile, missing file, garbage file, HTTP 500). Runs with 127..300 sources
 // cross the real chunk size. One event per run for TraceFetch.tla.
+//
+// The classes "errbody" and "remote" of Fetch.tla are URLs served by two local
+// servers (plain and TLS) and fetched by the driver itself through the REAL
+// internal/transport, configured with a TLS set-up whose one-time initialisation
+// succeeds or fails as the case's tlsok says: "errbody" is answered with an error
+// status and the source's own well-formed profile as the body, "remote" with 200
+// and the profile. The event carries the classes and tlsok; whether a source
+// counts as fetched is decided by TraceFetch.tla from those alone (Fetch.tla's
+// Ok): never by which fetch reached the transport first.
 package main
 
 import (
 	"bytes"
+	"crypto/tls"
+	"crypto/x509"
 	"encoding/json"
+	"encoding/pem"
 	"fmt"
+	"hash/fnv"
 	"io"
 	"net/http"
+	"net/http/httptest"
 	"os"
 	"path/filepath"
 	"regexp"
+	"strconv"
 	"strings"
 	"sync"
 	"time"
 
+	"github.com/google/pprof/internal/plugin"
+	realtransport "github.com/google/pprof/internal/transport"
 	"github.com/google/pprof/internal/zzverif/vdrv"
 	"github.com/google/pprof/internal/zzverif/vlib"
 	"github.com/google/pprof/profile"
@@ -28,23 +45,58 @@ type gi struct {
 	G string `json:"g"`
 	I int    `json:"i"`
 }
+
+// bcase is one behaviour of Fetch.tla: the class of every source ("ok", "fail", "errbody", "remote"), whether the
+// one-time initialisation of the shared transport succeeds, the completion order
 type bcase struct {
-	NSrc   int    `json:"nsrc"`
-	NBase  int    `json:"nbase"`
-	SrcOK  []bool `json:"srcok"`
-	BaseOK []bool `json:"baseok"`
-	Order  []gi   `json:"order"`
+	NSrc    int      `json:"nsrc"`
+	NBase   int      `json:"nbase"`
+	SrcOut  []string `json:"srcout"`
+	BaseOut []string `json:"baseout"`
+	TLSOK   bool     `json:"tlsok"`
+	Order   []gi     `json:"order"`
 }
 type fetchEvent struct {
-	Op       string `json:"op"`
-	N        int    `json:"n"`
-	SrcOK    []bool `json:"srcok"`
-	BaseOK   []bool `json:"baseok"`
-	Merged   []gi   `json:"merged"`
-	NSamples int    `json:"nsamples"`
-	Errs     []gi   `json:"errs"`
-	Failed   bool   `json:"failed"`
-	Schedule string `json:"schedule"`
+	Op       string   `json:"op"`
+	N        int      `json:"n"`
+	SrcOut   []string `json:"srcout"`
+	BaseOut  []string `json:"baseout"`
+	TLSOK    bool     `json:"tlsok"`
+	Merged   []gi     `json:"merged"`
+	NSamples int      `json:"nsamples"`
+	Errs     []gi     `json:"errs"`
+	Failed   bool     `json:"failed"`
+	Schedule string   `json:"schedule"`
+	Setup    string   `json:"setup,omitempty"` // not read by TLC: the TLS set-up and how the transport was plugged in
+}
+
+func viaTransport(class string) bool { return class == "errbody" || class == "remote" }
+
+func (c *bcase) classOf(x gi) string {
+	if x.G == "src" {
+		return c.SrcOut[x.I-1]
+	}
+	return c.BaseOut[x.I-1]
+}
+func (c *bcase) usesTransport() bool {
+	for _, cl := range c.SrcOut {
+		if viaTransport(cl) {
+			return true
+		}
+	}
+	for _, cl := range c.BaseOut {
+		if viaTransport(cl) {
+			return true
+		}
+	}
+	return false
+}
+
+// okOf is Fetch.tla's Ok(g, i): the outcome of a source as a function of its class and the configuration. It is used
+// here only for the value oracle (which samples the merged profile must hold); the events are decided by TraceFetch.tla.
+func (c *bcase) okOf(x gi) bool {
+	cl := c.classOf(x)
+	return cl == "ok" || (cl == "remote" && c.TLSOK)
 }
 
 var (
